@@ -13,6 +13,7 @@ import (
 
 	"github.com/anishathalye/porcupine"
 	"github.com/syndtr/goleveldb/leveldb"
+	"github.com/syndtr/goleveldb/leveldb/iterator"
 	"github.com/syndtr/goleveldb/leveldb/opt"
 	"github.com/syndtr/goleveldb/leveldb/util"
 	"pgregory.net/rapid"
@@ -192,15 +193,15 @@ func runProgram(c *PCase) (st pStats, err error) {
 		ops = append(ops, porcupine.Operation{ClientId: cid, Input: in, Call: call, Output: out, Return: ret})
 		mu.Unlock()
 	}
-	scan := func(it interface {
-		Next() bool
-		Key() []byte
-		Value() []byte
-		Error() error
-		Release()
-	}) (string, error) {
+	scan := func(it iterator.Iterator, backward bool) (string, error) {
 		m := map[string]string{}
-		for it.Next() {
+		if backward {
+			// the same cut must come out walking from the end
+			for ok := it.Last(); ok; ok = it.Prev() {
+				m[string(it.Key())] = strings.SplitN(string(it.Value()), "|", 2)[0]
+			}
+		}
+		for !backward && it.Next() {
 			m[string(it.Key())] = strings.SplitN(string(it.Value()), "|", 2)[0]
 		}
 		e := it.Error()
@@ -289,7 +290,7 @@ func runProgram(c *PCase) (st pStats, err error) {
 					}
 					// a point read and a scan through the same snapshot must agree with one instant
 					time.Sleep(time.Duration(op.N%50) * time.Microsecond)
-					cut, e := scan(s.NewIterator(nil, nil))
+					cut, e := scan(s.NewIterator(nil, nil), i%2 == 1)
 					s.Release()
 					if e != nil {
 						firstErr.CompareAndSwap(nil, fmt.Errorf("client %d snapshot scan: %v", cid, e))
@@ -337,7 +338,7 @@ func runProgram(c *PCase) (st pStats, err error) {
 					it := db.NewIterator(nil, nil)
 					ret := int64(time.Since(start))
 					time.Sleep(time.Duration(op.N%50) * time.Microsecond)
-					cut, e := scan(it)
+					cut, e := scan(it, i%2 == 1)
 					if e != nil {
 						firstErr.CompareAndSwap(nil, fmt.Errorf("client %d iterator scan: %v", cid, e))
 						return
@@ -569,6 +570,7 @@ func runWriters(c *WCase) (st wStats, err error) {
 		done bool
 	}
 	var rmu sync.Mutex
+	var batchTouched atomic.Value
 	results := map[string]*result{}
 	var wg sync.WaitGroup
 	var issuedCount int64
@@ -606,7 +608,11 @@ func runWriters(c *WCase) (st wStats, err error) {
 					rmu.Lock()
 					results[first] = r
 					rmu.Unlock()
+					dump := append([]byte{}, b.Dump()...)
 					e = db.Write(b, wo)
+					if !bytes.Equal(dump, b.Dump()) || b.Len() != len(r.keys) {
+						batchTouched.Store(fmt.Sprintf("Write of %s returned with the caller's batch changed: %d records before, %d after", first, len(r.keys), b.Len()))
+					}
 				}
 				rmu.Lock()
 				r.err, r.done = e, true
@@ -656,6 +662,9 @@ func runWriters(c *WCase) (st wStats, err error) {
 	}
 	st.racer = c.Racer != "" && c.Racer != "none"
 	fs.Heal()
+	if m := batchTouched.Load(); m != nil {
+		return st, fmt.Errorf("%s (another writer's records were merged into it: writing it again would duplicate that writer)", m)
+	}
 	// ---- trace invariants
 	tmu.Lock()
 	tr := append([]traceEv(nil), trace...)
